@@ -25,11 +25,14 @@ RULE = ("generated Datasets of 1-4 variables over 1-3 of 4 dimensions with parti
 ASSUMPTIONS = [
     "oracle: the DimArray operation itself, applied per variable (C01-C12, C17, C18 decide those)",
     "ds op ds: both datasets have the same variables over the same dimensions (labels may differ); concatenate_ds: the axis is in every variable (documented)",
+    "ds op ds with a variable laid out differently in the second dataset (rotated dims, a 1-d variable along another dim): both datasets then carry "
+    "identical labels - with differently ordered labels the per-variable results order a shared dimension differently and no Dataset can hold them "
+    "(the library refuses with ValueError; the statement does not cover that combination)",
     "computed values compared with rtol=atol=1e-12, moved values exactly",
 ]
 MANDATORY = ["op:take", "op:loc", "op:sel", "op:ix", "op:isel", "op:reduce", "op:take_axis", "op:sort_axis", "op:reindex_axis", "op:reindex_like",
              "op:interp_axis", "op:interp_like", "op:ds-scalar", "op:scalar-ds", "op:ds-ds", "op:neg", "op:stack_ds", "op:concatenate_ds",
-             "var-lacks-dim", "var-0d", "reindex:missing", "interp:outside", "ds-ds:labels-differ", "join:align=True"]
+             "var-lacks-dim", "var-0d", "reindex:missing", "interp:outside", "ds-ds:labels-differ", "ds-ds:layout-differs", "join:align=True"]
 
 OPS = ["take", "loc", "sel", "ix", "isel", "reduce", "take_axis", "sort_axis", "reindex_axis", "reindex_like", "interp_axis", "interp_like",
        "ds-scalar", "scalar-ds", "ds-ds", "neg", "stack_ds", "concatenate_ds"]
@@ -41,11 +44,12 @@ def budget(tier):
 
 
 @st.composite
-def ds_spec(draw, numeric=False, min_vars=1, all_have=None):
+def ds_spec(draw, numeric=False, min_vars=1, all_have=None, square=False):
     kinds = "if" if numeric else "ifs"
     nd = draw(st.integers(1, 3))
     dsdims = list(draw(st.permutations(gen.NAMES)))[:nd]
-    dlabels = {d: draw(gen.labels(draw(st.integers(1, 4)), kinds=kinds)) for d in dsdims}
+    n0 = draw(st.integers(2, 3))
+    dlabels = {d: draw(gen.labels(n0 if square else draw(st.integers(1, 4)), kinds=kinds)) for d in dsdims}
     nv = draw(st.integers(min_vars, 4))
     out = []
     for i in range(nv):
@@ -63,10 +67,12 @@ def ds_spec(draw, numeric=False, min_vars=1, all_have=None):
 
 @st.composite
 def case_st(draw):
-    op = draw(st.sampled_from(OPS))
+    op = draw(st.sampled_from(OPS + ["ds-ds"]))
     numeric = op in ("interp_axis", "interp_like")
     if op == "concatenate_ds":
         spec, dsdims, dlabels = draw(ds_spec(min_vars=1))
+    elif op == "ds-ds":
+        spec, dsdims, dlabels = draw(ds_spec(square=draw(st.booleans())))     # square: a positional mix-up stays shape-compatible
     else:
         spec, dsdims, dlabels = draw(ds_spec(numeric=numeric))
     if not dsdims:
@@ -127,7 +133,21 @@ def case_st(draw):
         for dd in dsdims:
             if draw(st.booleans()):
                 other[dd] = draw(gen.related_labels(dlabels[dd], core.label_kind(dlabels[dd])))[1]
-        p = {"sym": draw(st.sampled_from(["+", "-", "*"])), "other_labels": other}
+        # ... and, in some cases, variables laid out differently in the second dataset (rotated dims; a 1-d variable along another dim)
+        layout = {}
+        if draw(st.booleans()):
+            keep_first = draw(st.booleans())      # an unchanged first N-d variable keeps the dataset-level dimension order equal in both
+            for vi, (name, vs) in enumerate(spec["vars"]):
+                if keep_first and len(vs["dims"]) >= 2 and not any(len(v2["dims"]) >= 2 for _, v2 in spec["vars"][:vi]):
+                    continue
+                if len(vs["dims"]) >= 2 and draw(st.booleans()):
+                    k = draw(st.integers(1, len(vs["dims"]) - 1))
+                    layout[name] = vs["dims"][k:] + vs["dims"][:k]
+                elif len(vs["dims"]) == 1 and len(dsdims) >= 2 and draw(st.integers(0, 3)) == 0:
+                    layout[name] = [draw(st.sampled_from([dd for dd in dsdims if dd != vs["dims"][0]]))]
+        if layout:
+            other = {}      # (see ASSUMPTIONS: differently ordered labels + different layouts give per-variable results no Dataset can hold)
+        p = {"sym": draw(st.sampled_from(["+", "-", "*"])), "other_labels": other, "layout": layout}
     elif op in ("stack_ds", "concatenate_ds"):
         n = draw(st.integers(2, 3))
         others = []
@@ -142,6 +162,8 @@ def case_st(draw):
             others.append(o)
         p = {"others": others, "align": align, "keys": draw(st.sampled_from([None, "str"])), "sort": draw(st.booleans()) if align else False}
     pre = draw(st.sampled_from(["none", "none", "warm", "derive-take", "derive-reindex", "derive-take", "derive-sort"]))
+    if op == "ds-ds" and p.get("layout"):
+        pre = "warm" if pre != "none" else "none"
     perm = list(draw(st.permutations(list(range(len(labs))))))
     return {"op": op, "ds": spec, "dsdims": dsdims, "dim": d, "p": p, "pre": pre, "perm": perm}
 
@@ -174,16 +196,43 @@ def enumerate_cases(tier):
                        ("interp_axis", {"new": [min(labs) - 1.0, float(labs[0]), (min(labs) + max(labs)) / 2.0, max(labs) + 1.0], "left": "nan", "right": 99.0, "by": by})]
                 for op, p in ps:
                     yield "axis-by-dataset-position-grid", {"op": op, "ds": ds, "dsdims": ["x", "y"], "dim": d, "p": p}
+    # Dataset op Dataset where a variable is laid out differently in the second dataset: square shapes x every subset of
+    # {2-d variable transposed, 1-d variable along the other dimension} x which variable comes first x operator
+    for labs in ([3, 1, 2], [1, 2], ["b", "a"]):
+        for first in ("v0", "v1"):
+            v0 = ["v0", {"dims": ["x", "y"], "labels": [labs, labs], "vk": "f", "base": 0, "attrs": {}}]
+            v1 = ["v1", {"dims": ["x", "y"], "labels": [labs, labs], "vk": "f", "base": 20, "attrs": {}}]
+            v2 = ["v2", {"dims": ["x"], "labels": [labs], "vk": "f", "base": 40, "attrs": {}}]
+            v3 = ["v3", {"dims": ["y", "x"], "labels": [labs, labs], "vk": "i", "base": 60, "attrs": {}}]
+            ds = {"vars": [v0, v1, v2, v3] if first == "v0" else [v1, v0, v2, v3], "attrs": dict(DS_ATTRS)}
+            for mask in range(1, 8):
+                layout = {}
+                if mask & 1:
+                    layout["v1"] = ["y", "x"]
+                if mask & 2:
+                    layout["v2"] = ["y"]
+                if mask & 4:
+                    layout["v3"] = ["x", "y"]
+                for sym in ("+", "-", "*"):
+                    yield "ds-ds-layout-grid", {"op": "ds-ds", "ds": ds, "dsdims": ["x", "y"], "dim": "x",
+                                                "p": {"sym": sym, "other_labels": {}, "layout": layout}}
 
 
 # ----------------------------------------------------------------------------------------------
 
-def relabel(spec, newlabels):
-    """a dataset spec with the same variables over the same dims but other labels on some dims"""
+def relabel(spec, newlabels, layout=None, dlabels=None):
+    """a dataset spec with the same variables over the same dims but other labels on some dims (and, with `layout`, some
+    variables over the listed dims instead of their own)"""
     out = {"vars": [], "attrs": dict(spec.get("attrs", {}))}
     for name, s in spec["vars"]:
         s2 = dict(s)
-        s2["labels"] = [list(newlabels.get(d, l)) for d, l in zip(s["dims"], s["labels"])]
+        if layout and name in layout:
+            own = dict(zip(s["dims"], s["labels"]))
+            s2["dims"] = list(layout[name])
+            s2["labels"] = [list(newlabels.get(d, own.get(d, (dlabels or {}).get(d)))) for d in s2["dims"]]
+            s2.pop("hist", None)
+        else:
+            s2["labels"] = [list(newlabels.get(d, l)) for d, l in zip(s["dims"], s["labels"])]
         s2["base"] = s.get("base", 0) + 100
         out["vars"].append([name, s2])
     return out
@@ -362,7 +411,10 @@ def run_case(case):
     elif op == "ds-ds":
         import operator
         f = {"+": operator.add, "-": operator.sub, "*": operator.mul}[p["sym"]]
-        ds2 = core.build_dataset(relabel(case["ds"], p["other_labels"]))
+        dlab = {dd: l for _, vs in case["ds"]["vars"] for dd, l in zip(vs["dims"], vs["labels"])}
+        ds2 = core.build_dataset(relabel(case["ds"], p["other_labels"], p.get("layout"), dlab))
+        if p.get("layout"):
+            cl.add("ds-ds:layout-differs")
         snap2 = core.snapshot_dataset(ds2)
         expected = [(k, lib(lambda: f(fresh[k], ds2[k]), what="per-variable " + what, sig=sig)) for k in keys]
         res = lib(lambda: f(ds, ds2), what=what, sig=sig)
